@@ -268,8 +268,14 @@ PROPS["C10"] = {
          "timeout": {"quick": 300, "thorough": 1800}, "shards": {"quick": 1, "thorough": 2}},
         {"name": "external-stripped", "pkg": "./zverif/c10", "run": "^TestVerifC10$", "env": {"VERIF_C10_MODE": "external-stripped"},
          "build_flags": ["-ldflags=-linkmode=external -s"], "timeout": {"quick": 300, "thorough": 1800}, "shards": {"quick": 1, "thorough": 2}},
+        {"name": "pie-varfirst", "pkg": "./zverif/c10", "run": "^TestVerifC10$", "env": {"VERIF_C10_MODE": "pie-varfirst", "VERIF_C10_FIRST": "var"}, "build_flags": ["-buildmode=pie"],
+         "timeout": {"quick": 300, "thorough": 1800}, "shards": {"quick": 1, "thorough": 2}},
+        {"name": "external-varfirst", "pkg": "./zverif/c10", "run": "^TestVerifC10$", "env": {"VERIF_C10_MODE": "external-varfirst", "VERIF_C10_FIRST": "var"},
+         "build_flags": ["-ldflags=-linkmode=external"], "timeout": {"quick": 300, "thorough": 1800}, "shards": {"quick": 1, "thorough": 2}},
+        {"name": "default-varfirst", "pkg": "./zverif/c10", "run": "^TestVerifC10$", "env": {"VERIF_C10_MODE": "default-varfirst", "VERIF_C10_FIRST": "var"},
+         "timeout": {"quick": 300, "thorough": 1800}, "shards": {"quick": 1, "thorough": 2}},
     ],
-    "rule": "five builds of the same test binary (default, -ldflags=-s, -buildmode=pie, external linking, external linking stripped). Inputs: every function name of the binary's pclntab, every OBJECT "
+    "rule": "five builds of the same test binary (default, -ldflags=-s, -buildmode=pie, external linking, external linking stripped), three of them run a second time with a variable as the first name the process looks up (function names first otherwise). Inputs: every function name of the binary's pclntab, every OBJECT "
             "symbol of its .symtab plus harness-owned variables in .data/.bss/.noptrdata/.noptrbss whose addresses are known as &v, and rapid-generated "
             "near-miss names (drop/insert/flip a character, strip or swap the package path, add (*T)., prefixes, suffixes) and fresh names. Oracle from "
             "independent sources: pclntab entry + load slide (from /proc/self/maps), runtime.FuncForPC(addr).Entry()==addr and its name, .symtab FUNC value, "
